@@ -51,13 +51,17 @@ var fields = map[LT]map[string]fld{
 		"SellingCoin": {"(Go.sellingCoin %s)", "Coin"}, "PayingCoinDenom": {"%s.payDenom", "Denom"},
 		"VestingSchedules": {"%s.schedules", "List VS"}, "Auctioneer": {"%s.auctioneer", "Acc"},
 		"Id": {"(%s.id : Int)", "Int"},
+		// the three reserve addresses are functions of the id in the model (always well-formed)
+		"SellingReserveAddress": {"(0 : Acc)", "Acc"}, "PayingReserveAddress": {"(0 : Acc)", "Acc"}, "VestingReserveAddress": {"(0 : Acc)", "Acc"},
 	},
-	"Keeper":          {"Keeper": {"%s", "Keeper"}},
-	"Params":          {"ExtendedPeriod": {"(%s.period : Int)", "Int"}, "AuctionCreationFee": {"%s.creationFee", "Coins"}, "PlaceBidFee": {"%s.bidFee", "Coins"}},
+	"Keeper": {"Keeper": {"%s", "Keeper"}},
+	"Params": {"ExtendedPeriod": {"(%s.period : Int)", "Int"}, "AuctionCreationFee": {"%s.creationFee", "Coins"}, "PlaceBidFee": {"%s.bidFee", "Coins"}},
+	"GenesisG": {"Params": {"%s.params", "Params"}, "AuctionList": {"%s.auctions", "List Auction"}, "AllowedBidderList": {"%s.allowed", "List AllowedArg"},
+		"BidList": {"%s.bids", "List Bid"}, "VestingQueueList": {"%s.vqs", "List VQ"}},
 	"UpdateParamsMsg": {"Authority": {"%s.signer", "Acc"}, "Params": {"%s.params", "Params"}},
 	"MInfo":           {"MatchedLen": {"%s.matchedLen", "Int"}, "MatchedPrice": {"%s.price", "Dec"}, "TotalMatchedAmount": {"%s.total", "Int"}},
 	"VS":              {"ReleaseTime": {"%s.release", "Time"}, "Weight": {"%s.weight", "Dec"}},
-	"VQ": {"ReleaseTime": {"%s.release", "Time"}, "Released": {"%s.released", "Bool"}, "PayingCoin": {"(Go.vqCoin %s)", "Coin"},
+	"VQ": {"Auctioneer": {"%s.auctioneer", "Acc"}, "ReleaseTime": {"%s.release", "Time"}, "Released": {"%s.released", "Bool"}, "PayingCoin": {"(Go.vqCoin %s)", "Coin"},
 		"AuctionId": {"(%s.auction : Int)", "Int"}},
 	"Allowed": {"Bidder": {"%s.bidder", "Acc"}, "MaxBidAmount": {"%s.cap", "Int"}},
 	"AllowedArg": {"Bidder": {"%s.bidder", "Acc"}, "MaxBidAmount": {"%s.cap", "Int"},
@@ -152,6 +156,7 @@ func init() {
 	methods["Time.After"] = fnSpec{L: "decide (%1 > %2)", T: "Bool", Arity: 2, Args: []LT{"Time", "Time"}}
 	methods["Time.Before"] = fnSpec{L: "decide (%1 < %2)", T: "Bool", Arity: 2, Args: []LT{"Time", "Time"}}
 	methods["Time.Equal"] = fnSpec{L: "decide (%1 = %2)", T: "Bool", Arity: 2, Args: []LT{"Time", "Time"}}
+	methods["Time.UnixNano"] = fnSpec{L: "%1", T: "Int", Arity: 1, Note: "UnixNano is injective on the times of the model (whole seconds)"}
 	methods["Time.AddDate"] = fnSpec{L: "(Go.addDate %1 %2 %3 %4)", T: "Time", Arity: 4}
 
 	methods["Coin.Validate"] = fnSpec{L: "(!validCoin %1.denom %1.amt)", T: "Err", Arity: 1}
@@ -182,6 +187,7 @@ func init() {
 	methods["Allowed.GetBidder"] = fnSpec{L: "(%1.bidder, !validAcc %1.bidder)", T: "(Acc × Err)", Arity: 1}
 	methods["AllowedArg.GetBidder"] = fnSpec{L: "(%1.bidder, !validAcc %1.bidder)", T: "(Acc × Err)", Arity: 1}
 	methods["Acc.Equals"] = fnSpec{L: "decide (%1 = %2)", T: "Bool", Arity: 2, Args: []LT{"Acc", "Acc"}}
+	methods["SdkCtx.BlockTime"] = fnSpec{L: "now__", T: "Time", Arity: 1, Note: "the block time is the oracle parameter now__"}
 	methods["Acc.String"] = fnSpec{L: "%1", T: "Acc", Arity: 1}
 	methods["Coins.Validate"] = fnSpec{L: "(!validCoins %1)", T: "Err", Arity: 1}
 	methods["Addr.String"] = fnSpec{L: "%1", T: "Addr", Arity: 1}
@@ -219,6 +225,7 @@ var funcs = map[string]fnSpec{
 		Note: "sdk.NewCoin panics on a negative amount (handled by the model's mkCoins)"},
 	"sdk.AccAddressFromBech32": {L: "(%1, !validAcc %1)", T: "(Acc × Err)", Arity: 1, Args: []LT{"Acc"}},
 	"sdk.ValidateDenom":        {L: "(!validDenom %1)", T: "Err", Arity: 1, Args: []LT{"Denom"}},
+	"fmt.Sprint":               {L: "(Go.keyPart %1)", T: "Key", Arity: 1},
 	"MustParseRFC3339":         {L: "(Go.parseTime %1)", T: "Time", Arity: 1, Args: []LT{"String"}},
 	"math.LegacyNewDec":        {L: "(Dec.ofInt %1)", T: "Dec", Arity: 1, Args: []LT{"Int"}},
 	"sdk.NewCoins": {L: "%1", T: "Coin", Arity: 1, Args: []LT{"Coin"},
@@ -243,7 +250,7 @@ var zeroValues = map[string]V{
 }
 
 var zeroByLean = map[LT]string{
-	"Int": "(0 : Int)", "Dec": "(0 : Dec)", "Bool": "false", "BRes": "(default : BRes)", "MState": "(default : MState)", "IOC": "(default : IOC)",
+	"Unit": "()", "Int": "(0 : Int)", "Dec": "(0 : Dec)", "Bool": "false", "BRes": "(default : BRes)", "MState": "(default : MState)", "IOC": "(default : IOC)",
 	"List Bid": "[]", "List Dec": "[]",
 }
 
@@ -267,6 +274,9 @@ var composites = map[string]compositeSpec{
 }
 
 var ignoredCalls = map[string]bool{}
+
+// calls that only observe (logging, metrics, printing): statements calling them are skipped
+var ignoredPrefixes = []string{"telemetry.", "fmt.Print", "log.", "k.Logger", "ctx.Logger", "sdkCtx.Logger", "logger."}
 
 // goTypeNames: Go type expressions (as rendered) -> Lean types, for map literals
 var goTypeNames = map[string]LT{"inOutCoins": "IOC", "string": "Acc", "math.Int": "Int", "*BidderMatchResult": "BRes", "*types.BidderMatchResult": "BRes", "uint64": "Int", "bool": "Bool"}
